@@ -1,23 +1,22 @@
 import Driver.Proto
 import Gosyn.Model.Climb
 import Gosyn.Model.Dir
+import Gosyn.Model.ScanAll
 import Lean.Data.Json
 /-! `driver model`: the model's answer for one harness case line, in the harness's output format. -/
 open Gosyn.Model Gosyn.Gen Gosyn.Ast
 
 namespace Driver
 
-def scanAll (src : String) : String := Id.run do
-  let mut s : Scanner := { src := src.toList.toArray }
-  let mut toks : Array String := #[]
-  let mut err := "null"
-  for _ in [0:2 * s.src.size + 4] do
-    match s.nextToken with
-    | (.ok (some pt), s') => toks := toks.push (posTokJson pt); s := s'
-    | (.ok none, s') => s := s'; break
-    | (.error e, s') => err := serrJson e; s := s'; break
-  let ls := ",".intercalate (s.lines.toList.map toString)
-  return s!"\{\"toks\":[{",".intercalate toks.toList}],\"err\":{err},\"lines\":[{ls}]}"
+/-- the harness's `scan` mode: the model's token loop (`Model/ScanAll.lean`, the object of the whole-input
+    theorems of `Props/C07b.lean`) -/
+def scanAll (src : String) : String :=
+  let r := scanTokens { src := src.toList.toArray }
+  let toks := r.toks.map posTokJson
+  let err := if r.fuelOut then serrJson (.panic "scan_all: out of fuel") else
+    match r.err with | some e => serrJson e | none => "null"
+  let ls := ",".intercalate (r.final.lines.toList.map toString)
+  s!"\{\"toks\":[{",".intercalate toks}],\"err\":{err},\"lines\":[{ls}]}"
 
 /-- repeated calls of one entry point on one parser (C15) -/
 def repeatEntry {α} (entry : Tbl → P α) (toJ : α → J) (k : Nat) (src : String) : String := Id.run do
